@@ -107,6 +107,42 @@ def run(ctx, res):
             if Lark(w['grammar'], parser='earley', lexer=w['lexer'], ambiguity='forest').parse(w['text']).is_ambiguous:
                 res.known_hits.append(('F20', '%s: %r on %r has one derivation, root.is_ambiguous is True' % (f['what'], w['grammar'], w['text'])))
     jobs, outs = forestlib.forest_stream(ctx, 20, {'c20'}, 3000, 25000, prio=True)
+    # ---- the walk itself: the Lean model of ForestVisitor.visit (ForestVisit.lean: total on every graph, a proper depth-first walk, single_visit enters
+    # no node twice) run on the exported node graph must produce the event sequence the real visitor produced
+    if ctx['driver_ok']:
+        from common import run_driver_parallel
+        vcases, vwhere = [], []
+        for ji, (st, rec) in enumerate(outs):
+            if st != 'ok':
+                continue
+            for ri, run_ in enumerate(rec.get('runs', [])):
+                for v in run_.get('visit_logs', []):
+                    vcases.append({'op': 'forest_visit', 'nodes': v['nodes'], 'kids': v['kids'], 'toks': v['toks'], 'sv': v['sv'], 'root': v['root']})
+                    vwhere.append((rec['grammar'], run_['text'], run_['lexer'], v))
+        for (g_, text_, lexer_, v), m in zip(vwhere, run_driver_parallel(vcases, timeout=900)):
+            res.count('walks_replayed_on_the_lean_model'); res.count('walk_events', len(v['events']))
+            res.count('walks_with_on_cycle', 1 if any(e[0] == 3 for e in v['events']) else 0)
+            if 'error' in m:
+                raise InfraError('driver forest_visit: %s' % m['error'])
+            if m['events'] != v['events']:
+                k = next((i for i, (a, b) in enumerate(zip(m['events'], v['events'])) if a != b), min(len(m['events']), len(v['events'])))
+                info = {'grammar': g_, 'text': text_, 'lexer': lexer_, 'single_visit': v['sv'], 'first_difference_at_event': k,
+                        'model': m['events'][max(0, k - 3):k + 3], 'code': v['events'][max(0, k - 3):k + 3], 'graph': {'kids': v['kids'], 'toks': v['toks'], 'root': v['root']}}
+                # is the real sequence still a proper depth-first walk?  (replayed independently: enter only off-path, leave innermost, cycle only on-path)
+                path, ok = [], True
+                for kind, n in v['events']:
+                    if kind == 0:
+                        ok = ok and n not in path; path.append(n)
+                    elif kind == 1:
+                        ok = ok and bool(path) and path[-1] == n
+                        if path: path.pop()
+                    elif kind == 3:
+                        ok = ok and n in path
+                seen_in = [n for kind, n in v['events'] if kind == 0]
+                if not ok or path or (v['sv'] and len(seen_in) != len(set(seen_in))):
+                    res.violation('ForestVisitor.visit is not a proper depth-first walk of the forest (a node entered while on the path, unbalanced in/out, on_cycle for a node off the path, or a node entered twice under single_visit)', info)
+                else:
+                    res.corr_break('ForestVisitor.visit: event sequence differs from the Lean model VisitProto.visit (theorems visit_is_depth_first, single_visit_enters_once)', info)
     for job, rec in problems(res, jobs, outs, 'building/walking the forest'):
         if 'gerr' in rec:
             res.count('grammar_error'); continue
